@@ -52,9 +52,10 @@ deriving Repr, DecidableEq
 
 def normAxis (rank : Nat) (a : Int) : Int := if a < 0 then a + rank else a
 
-/-- the reduction never touches the batch axis -/
+/-- the reduction never touches the batch axis (and is a valid torch call: axes in range, no axis named twice) -/
 def Red.perSample (r : Red) : Bool :=
-  r.batchFirst && !r.axes.isEmpty && r.axes.all fun a => decide (0 < normAxis r.rank a) && decide (normAxis r.rank a < r.rank)
+  r.batchFirst && !r.axes.isEmpty && (r.axes.all fun a => decide (0 < normAxis r.rank a) && decide (normAxis r.rank a < r.rank))
+    && decide ((r.axes.map (normAxis r.rank)).Nodup)
 
 /-- the axes as naturals, largest first (so that reducing one does not renumber the next) -/
 def Red.natAxes (r : Red) : List Nat :=
